@@ -97,11 +97,12 @@ class Refactoring:
         def calculate_to_path(p):
             if p is None:
                 return p
-            p = str(p)
             for from_, to in renames:
-                if p.startswith(str(from_)):
-                    p = str(to) + p[len(str(from_)):]
-            return Path(p)
+                # Compare whole path components, a renamed `pkg` must not
+                # match `pkg2/x.py` just because the strings share a prefix.
+                if p == from_ or from_ in p.parents:
+                    p = to / p.relative_to(from_)
+            return p
 
         renames = self.get_renames()
         return {
